@@ -15,7 +15,8 @@
    C04_exactly_one_leaf, C04_tree_strategy_independent are corollaries. *)
 From Coq Require Import List ZArith.
 From RtoscV Require Import Match.PatSpec Match.MatchModel Match.MatchProofs
-     Ports.DispatchModel Ports.DispatchProofs Ports.DispatchRegress Ports.TreeProofs.
+     Ports.DispatchModel Ports.DispatchProofs Ports.DispatchRegress Ports.TreeProofs
+     Ports.DispatchReuse Ports.DispatchReuseProofs.
 Import ListNotations.
 Local Open Scope Z_scope.
 
@@ -363,3 +364,19 @@ Theorem C04_tree_nonvacuous :
      log := [Ev 1 1 [99] 133 (Some [47; 97; 49; 47; 99]) (Some (1, 1)) true;
              Ev 0 0 [97; 49; 47; 99] 1 (Some [47; 97; 49; 47]) (Some (0, 0)) false] |}.
 Proof. exact (conj tree_ex_ok (conj tree_ex_names (conj tree_ex_addressed tree_ex_run))). Qed.
+
+(* "When a location buffer is supplied the callback sees the full address in it" on a REUSED
+   RtData: whatever C string the buffer held before the root dispatch (an earlier address, a
+   reply text) and whatever d.matches held, the run is the run on a fresh buffer - so every
+   statement above about `dispatch t m args true o` holds for it *)
+Theorem C04_reused_buffer_as_fresh : forall t m args stale m0 o,
+  dispatch_reused t m args stale m0 o = dispatch t m args true o.
+Proof. exact dispatch_reused_as_fresh. Qed.
+
+Theorem C04_reused_buffer_nonvacuous :
+  let leaf := Node {| t_id := 1; t_dflt := false; t_ports := [([120;121], false)]; t_pos := []; t_assoc := [] |} [None] in
+  let root := Node {| t_id := 0; t_dflt := false; t_ports := [([97;98;47], true)]; t_pos := []; t_assoc := [] |} [Some leaf] in
+  map (fun e => match e with Ev _ _ _ _ l _ _ => l | _ => None end)
+      (rev (log (dispatch_reused root [47;97;98;47;120;121] [] [115;99;114;97;116;99;104] 5 1)))
+  = [Some [47;97;98;47]; Some [47;97;98;47;120;121]].
+Proof. exact dispatch_reused_nonvacuous. Qed.
